@@ -233,6 +233,110 @@ def mk_array(P, name, dims, sizes, cls=DA, axes=None, values=None, attrs=None, o
     return arr
 
 
+# ---------------------------------------------------------------------------------------------------------------- small concrete arrays
+def _shape_of(data):
+    if isinstance(data, list):
+        if not data:
+            return (0,)
+        sub = _shape_of(data[0])
+        return (len(data),) + sub
+    return ()
+
+
+def _kind_of(flat):
+    kinds = set('b' if isinstance(x, bool) else 'i' if isinstance(x, int) else 'f' if isinstance(x, float) else 'U' if isinstance(x, str) else 'O' for x in flat)
+    if not kinds:
+        return 'f'
+    if kinds <= {'b'}:
+        return 'b'
+    if kinds <= {'b', 'i'}:
+        return 'i'
+    if kinds <= {'b', 'i', 'f'}:
+        return 'f'
+    if 'O' in kinds:
+        return 'O'
+    return 'U'
+
+
+def _flat(data):
+    if isinstance(data, list):
+        out = []
+        for x in data:
+            out.extend(_flat(x))
+        return out
+    return [data]
+
+
+def conc(data, kind=None, shape=None):
+    """a small array with concrete content (nested lists): what label arrays of grouped axes are computed from"""
+    import copy as _c
+    data = _c.deepcopy(data)
+    shp = tuple(shape) if shape is not None else _shape_of(data)
+    k = kind or _kind_of(_flat(data))
+    a = Obj('arr', types=('ndarray', 'np.ndarray'), attrs={'shape': shp, 'ndim': len(shp), 'size': _prod(shp), '_data': data, 'dtype': Obj('dtype', attrs={'kind': k})})
+    a.attrs['dtype'].hooks['render'] = lambda o: 'dtype(%s)' % o.attrs['kind']
+    a.hooks['render'] = lambda o: 'array(%s, kind=%s)' % (render(o.attrs['_data']), o.attrs['dtype'].attrs['kind'])
+    a.hooks['length'] = lambda itp, o: o.attrs['shape'][0] if o.attrs['shape'] else (_ for _ in ()).throw(Raised('TypeError'))
+    a.hooks['iter'] = lambda itp, o: [conc(x, o.attrs['dtype'].attrs['kind']) if isinstance(x, list) else x for x in o.attrs['_data']] if o.attrs['shape'] else \
+        (_ for _ in ()).throw(Raised('TypeError'))
+    a.hooks['eq'] = lambda itp, o, other: isinstance(other, Obj) and other.attrs.get('_data') == o.attrs['_data']
+
+    def getitem(itp, o, i):
+        d = o.attrs['_data']
+        if isinstance(i, tuple) and len(i) == 0:
+            return o
+        if not o.attrs['shape']:
+            raise Raised('IndexError')
+        try:
+            if isinstance(i, int):
+                x = d[i]
+                return conc(x, o.attrs['dtype'].attrs['kind']) if isinstance(x, list) else x
+            if isinstance(i, slice):
+                return conc(d[i], o.attrs['dtype'].attrs['kind'])
+        except IndexError:
+            raise Raised('IndexError')
+        return Sym('sub', o, i)
+
+    def setitem(itp, o, i, v):
+        if isinstance(i, slice) and i == slice(None, None, None):
+            vals = itp.iterate(v)
+            if len(vals) != o.attrs['shape'][0]:
+                raise Raised('ValueError')
+            if o.attrs['dtype'].attrs['kind'] != 'O' and any(isinstance(x, (tuple, list)) for x in vals):
+                raise Raised('ValueError')
+            o.attrs['_data'][:] = list(vals)
+            return
+        raise Undecided('array item store')
+    a.hooks['getitem'] = getitem
+    a.hooks['setitem'] = setitem
+    a.methods['ravel'] = lambda itp, o, aa, k: conc(_flat(o.attrs['_data']) if o.attrs['shape'] else [o.attrs['_data']], o.attrs['dtype'].attrs['kind'])
+    a.methods['tolist'] = lambda itp, o, aa, k: _c.deepcopy(o.attrs['_data'])
+    a.methods['copy'] = lambda itp, o, aa, k: conc(o.attrs['_data'], o.attrs['dtype'].attrs['kind'], o.attrs['shape'])
+    a.methods['astype'] = lambda itp, o, aa, k: conc(o.attrs['_data'], kind_char(aa[0] if aa else k.get('dtype')), o.attrs['shape'])
+
+    def getattr_hook(itp, o, attr):
+        if attr == 'T':
+            d, shp_ = o.attrs['_data'], o.attrs['shape']
+            if len(shp_) == 2:
+                return conc([[d[i][j] for i in range(shp_[0])] for j in range(shp_[1])], o.attrs['dtype'].attrs['kind'], (shp_[1], shp_[0]))
+            if len(shp_) <= 1:
+                return o
+            raise Undecided('transpose of a %d-d concrete array' % len(shp_))
+        return KeyError
+    a.hooks['getattr'] = getattr_hook
+    return a
+
+
+def kind_char(d):
+    if isinstance(d, TypeV):
+        return {'float': 'f', 'object': 'O', 'str': 'U', 'int': 'i', 'bool': 'b'}.get(d.name, 'O')
+    if isinstance(d, str):
+        return d[0] if d else 'f'
+    if d is None:
+        return None
+    return 'O'
+
+
 def class_attrs(P, clsq, overrides_of):
     """getattr hook of a class token: classmethods / staticmethods of the repository class are interpreted (cls = the token itself)"""
     ci = P.classes.get(clsq)
@@ -296,6 +400,55 @@ def mk_np():
         shp = [arr.attrs['shape'][i] for i in axes]
         return mk_values('np.rollaxis(%s, %d, %d)' % (arr.name, axis, start), shp)
     np.methods['rollaxis'] = rollaxis
+
+    def as_conc(x):
+        if isinstance(x, Obj) and '_data' in x.attrs:
+            return x
+        if isinstance(x, (list, tuple)) and not has_abstract_deep(x):
+            return conc([list(y) if isinstance(y, tuple) else y for y in x] if any(isinstance(y, tuple) for y in x) else list(x))
+        return None
+
+    def meshgrid(itp, o, a, k):
+        arrs = [as_conc(x) for x in a]
+        if any(x is None or x.attrs['ndim'] != 1 for x in arrs) or k.get('indexing') not in ('ij', 'xy', None):
+            return Sym('call', 'np.meshgrid', tuple(a), dict(k))
+        lists = [x.attrs['_data'] for x in arrs]
+        order = list(range(len(lists)))
+        if k.get('indexing', 'xy') == 'xy' and len(lists) >= 2:
+            order[0], order[1] = 1, 0
+        shape = [len(lists[i]) for i in order]
+        out = []
+        for n_, lab in enumerate(lists):
+            def build(idx, depth, n_=n_, lab=lab):
+                if depth == len(order):
+                    return lab[idx[order.index(n_)]]
+                return [build(idx + [j], depth + 1) for j in range(shape[depth])]
+            out.append(conc(build([], 0), arrs[n_].attrs['dtype'].attrs['kind'], shape))
+        return out
+    np.methods['meshgrid'] = meshgrid
+
+    def array(itp, o, a, k):
+        x = a[0] if a else k.get('object')
+        dt = k.get('dtype', a[1] if len(a) > 1 else None)
+        if isinstance(x, (list, tuple)) and not has_abstract_deep(x):
+            rows = [list(y) if isinstance(y, (tuple, list)) else y for y in x]
+            if rows and all(isinstance(y, list) for y in rows) and len(set(len(y) for y in rows)) == 1:
+                return conc(rows, kind_char(dt))
+            if not any(isinstance(y, list) for y in rows):
+                return conc(rows, kind_char(dt))
+            raise Raised('ValueError')
+        return asarray(itp, o, a, k)
+    np.methods['array'] = array
+
+    def empty(itp, o, a, k):
+        shape = a[0] if a else k.get('shape')
+        dt = k.get('dtype', a[1] if len(a) > 1 else None)
+        if isinstance(shape, int) and not isinstance(shape, bool):
+            return conc([None] * shape, kind_char(dt) or 'f', (shape,))
+        if isinstance(shape, (tuple, list)) and len(shape) == 2 and all(isinstance(x, int) for x in shape):
+            return conc([[None] * shape[1] for _ in range(shape[0])], kind_char(dt) or 'f', tuple(shape))
+        return shaped('empty')(itp, o, a, k)
+    np.methods['empty'] = empty
     np.methods['arange'] = lambda itp, o, a, k: mk_values('np.arange(%d)' % a[0], [a[0]]) if len(a) == 1 and isinstance(a[0], int) and not isinstance(a[0], bool) and not k \
         else Sym('call', 'np.arange', tuple(a), dict(k))
     def allany(which):
@@ -337,6 +490,9 @@ def mk_np():
 
     def asarray(itp, o, a, k):
         x = a[0]
+        if isinstance(x, Obj) and '_data' in x.attrs:
+            dt = k.get('dtype', a[1] if len(a) > 1 else None)
+            return x if dt is None else conc(x.attrs['_data'], kind_char(dt), x.attrs['shape'])
         if isinstance(x, Obj) and 'ndarray' in x.types and not k and len(a) == 1:
             return x
         if isinstance(x, Obj) and 'Axis' in x.types and not k and len(a) == 1:
@@ -368,6 +524,14 @@ def mk_np():
     np.methods['asarray'] = asarray
     np.methods['prod'] = lambda itp, o, a, k: _prod(itp.iterate(a[0])) if isinstance(a[0], (list, tuple)) and all(isinstance(y, int) for y in a[0]) else Sym('call', 'np.prod', tuple(a), dict(k))
     return np
+
+
+def has_abstract_deep(x, depth=0):
+    if isinstance(x, (Sym, Obj)):
+        return True
+    if isinstance(x, (list, tuple)) and depth < 6:
+        return any(has_abstract_deep(y, depth + 1) for y in x)
+    return False
 
 
 def has_abstract_in(xs):
@@ -745,6 +909,96 @@ def sc_concatenate(P):
     return out
 
 
+def dimarray_cls(P, ov):
+    """the DimArray class as from_nested / helpers see it: calling it builds an abstract array out of the data token (scalar -> 0-d)"""
+    def ctor(itp, a, k):
+        data = a[0] if a else k.get('values')
+        rest = dict((kk, vv) for kk, vv in k.items() if kk != 'values' and vv is not None)
+        if isinstance(data, Obj) and 'ndarray' in data.types:
+            n = data.attrs['ndim']
+            dims = rest.get('dims') or ['x%d' % i for i in range(n)]
+            labs = rest.get('labels') or [None] * n
+            axes = [mk_axis(d, sz, lab if lab is not None else Sym('call', 'np.arange', (sz,), {})) for d, sz, lab in zip(dims, data.attrs['shape'], labs)]
+            if len(axes) != n:
+                raise Raised('Exception')
+            return mk_array(P, 'DimArray', None, None, axes=axes, values=data, attrs={}, overrides=ov)
+        if isinstance(data, (int, float, str, bool)) or data is None:
+            return mk_array(P, 'DimArray', None, None, axes=[], values=Sym('call', 'asarray', (data,), {}), attrs={}, overrides=ov)
+        return Sym('call', 'DimArray', tuple(a), rest)
+    t = TypeV('DimArray', ctor=ctor)
+    t.getattr = class_attrs(P, DA, lambda: ov)
+    return t
+
+
+def sc_from_nested(P):
+    out = []
+
+    def opts():
+        ov = std_overrides(P)
+        ov['DimArray'] = dimarray_cls(P, ov)
+        ov['stack'] = lambda itp, a, k: Sym('call', 'stack', (a[0],), dict((kk, vv) for kk, vv in k.items()))
+        return ov
+
+    def case(label, data, **kw):
+        def mk():
+            ov = opts()
+            import copy
+            return ([ov['DimArray'], copy.deepcopy(data) if not isinstance(data, Obj) else data], dict(kw), {'overrides': ov})
+        out.append((label, mk))
+    d1 = {'a': 1, 'b': 2}
+    d2 = {'a': {1: 11, 2: 22, 3: 33}, 'b': {1: 111, 2: 222, 3: 333}}
+    l2 = [[1, 2, 3], [4, 5, 6]]
+    ld = [{1: 11, 2: 22}, {1: 33, 2: 44}]
+    case('scalar', 5)
+    case('dict of scalars', d1)
+    case('dict of scalars, dims', d1, dims=['u'])
+    case('dict of scalars, dims and labels', d1, dims=['u'], labels=[['p', 'q']])
+    case('dict of dicts', d2)
+    case('dict of dicts, dims', d2, dims=['u', 'v'])
+    case('dict of dicts, dims and labels', d2, dims=['u', 'v'], labels=[['p', 'q'], [7, 8, 9]])
+    case('dict of dicts, only the outer labels', d2, dims=['u', 'v'], labels=[['p', 'q']])
+    case('dict of dicts, align=False', d2, dims=['u', 'v'], align=False)
+    case('list of lists', l2)
+    case('list of lists, dims', l2, dims=['u', 'v'])
+    case('list of lists, dims and labels', l2, dims=['u', 'v'], labels=[['p', 'q'], [7, 8, 9]])
+    case('list of dicts, dims and outer labels', ld, dims=['u', 'v'], labels=[['p', 'q']])
+    case('dict of 1-d ndarrays, dims', {'a': mk_values('N1', [3]), 'b': mk_values('N2', [3])}, dims=['u', 'v'])
+    case('dict of 1-d ndarrays, dims and labels', {'a': mk_values('N1', [3]), 'b': mk_values('N2', [3])}, dims=['u', 'v'], labels=[['p', 'q'], [7, 8, 9]])
+    case('a 2-d ndarray', mk_values('N', [2, 3]), dims=['u', 'v'])
+    case('three levels', {'a': {'k': [1, 2], 'l': [3, 4]}, 'b': {'k': [5, 6], 'l': [7, 8]}}, dims=['u', 'v', 'w'])
+    case('three levels, labels for two levels', {'a': {'k': [1, 2], 'l': [3, 4]}, 'b': {'k': [5, 6], 'l': [7, 8]}}, dims=['u', 'v', 'w'], labels=[['p', 'q'], ['r', 's']])
+    return out
+
+
+def sc_flatten_labels(P):
+    out = []
+    cases = [('one member', [[1, 2, 3]]), ('two int members', [[1, 2], [10, 20, 30]]), ('int and str members', [[1, 2], ['a', 'b', 'c']]),
+             ('str and int members', [['a', 'b', 'c'], [1, 2]]), ('three members', [[1, 2], ['a', 'b'], [0.5, 1.5]]), ('an empty member', [[], [1, 2, 3]]),
+             ('a second empty member', [[1, 2], []]), ('single labels', [[1], ['a']]), ('no member', [])]
+    for label, lists in cases:
+        out.append((label, lambda lists=lists: ([conc(l) for l in lists], {}, OPTS(P))))
+    return out
+
+
+def concrete_multiaxis(P, members):
+    axes = [mk_axis(n, len(lab), conc(lab)) for n, lab in members]
+    m = Obj('MULTI', types=('MultiAxis', 'Axis'), attrs={'axes': mk_axes(axes), '_values': None, '_size': None, '_name': ','.join(n for n, _ in members)})
+    m.hooks['getattr'] = class_methods(P, 'dimarray.core.axes.MultiAxis', skip=('axes',))
+    m.hooks['overrides'] = std_overrides(P)
+    return m
+
+
+def sc_multiaxis(P, which):
+    def gen(P):
+        out = []
+        cases = [('one member', [('a', [1, 2, 3])]), ('two int members', [('a', [1, 2]), ('b', [10, 20, 30])]), ('int and str members', [('a', [1, 2]), ('b', ['u', 'v', 'w'])]),
+                 ('three members', [('a', [1, 2]), ('b', ['u', 'v']), ('c', [0.5, 1.5])]), ('an empty member', [('a', []), ('b', [1, 2, 3])]), ('single labels', [('a', [1]), ('b', ['u'])])]
+        for label, members in cases:
+            out.append((label, lambda members=members: ([concrete_multiaxis(P, members)], {}, OPTS(P))))
+        return out
+    return gen
+
+
 def sc_axes_from(P):
     """Axes.from_shape / from_arrays / from_dict called directly"""
     out = []
@@ -754,6 +1008,11 @@ def sc_axes_from(P):
 SCENARIOS = {
     'dimarray.core.axes._init_axes': (('C05',), sc_init_axes),
     'dimarray.tools.is_array1d_equiv': (('C05',), sc_array1d_equiv),
+    'dimarray.core.dimarraycls.DimArray.from_nested': (('C05',), sc_from_nested),
+    'dimarray.core.axes._flatten': (('C11', 'C05'), sc_flatten_labels),
+    'dimarray.core.axes.MultiAxis._get_values': (('C11',), sc_multiaxis(None, '_get_values')),
+    'dimarray.core.axes.MultiAxis.values': (('C11',), sc_multiaxis(None, 'values')),
+    'dimarray.core.axes.MultiAxis.size': (('C11',), sc_multiaxis(None, 'size')),
     'dimarray.core.align.stack': (('C12', 'C05'), sc_stack),
     'dimarray.core.align.concatenate': (('C12',), sc_concatenate),
     'dimarray.core.reshape.transpose': (('C10', 'C04', 'C12'), sc_transpose),
